@@ -187,6 +187,11 @@ fn container_set(sub: &str, thorough: bool) -> Vec<(String, String, Comp, Packag
     }
     // concat of the three separate files
     v.push(("multi-zstd-concat".into(), "multi".into(), Comp::Zstd(5), Packaging::NoConcat, true));
+    // several content packs inside one file, all recorded with the same location string (a check
+    // or a lookup that remembers what it did per location string treats them as one pack)
+    if sub == "c04" || sub == "c05" {
+        v.push(("multi2-none-concat-sameloc".into(), "multi2".into(), Comp::None, Packaging::NoConcat, true));
+    }
     if thorough {
         v.push(("multi-none-concat".into(), "multi".into(), Comp::None, Packaging::NoConcat, true));
     }
@@ -230,6 +235,23 @@ fn build_set(base: &Path, sub: &str, thorough: bool) -> Result<Vec<ContainerDesc
                     let _ = std::fs::remove_file(f);
                 }
                 files = vec!["cat.jbk".into()];
+                if name.ends_with("-sameloc") {
+                    let uuids: Vec<uuid::Uuid> = {
+                        let cont = jubako::reader::Container::new(&outp).map_err(|e| format!("open concat output: {e}"))?;
+                        (1..=16u16)
+                            .filter_map(|id| match cont.get_pack(jubako::PackId::from(id)) {
+                                Ok(Some(jubako::reader::MayMissPack::FOUND(p))) => Some(jubako::Pack::uuid(p)),
+                                _ => None,
+                            })
+                            .collect()
+                    };
+                    if uuids.len() < 2 {
+                        return Err(format!("{name}: {} content packs found, at least 2 expected", uuids.len()));
+                    }
+                    for u in uuids {
+                        jubako::tools::set_location(&outp, u, jubako::SmallString::from("packs.jbkc")).map_err(|e| format!("set_location: {e}"))?;
+                    }
+                }
             } else {
                 files.insert(0, "cat.jbk".into());
             }
